@@ -263,8 +263,16 @@ def parse_member(op, ftol, c):
         R["pp"] = [c.dbls() for _ in range(n)]
     elif op == "c11.nmd":
         R["start"] = c.dbls(); R["deltas"] = c.dbls()
-    else:
+    elif op == "c11.nm1":
         R["start"] = c.dbls(); R["delta"] = c.dbl()
+    elif op == "c11.rs":        # aliased restarts (members of c11.nmseq only): the simplex is the object's own
+        R["restart"] = "rs"; R["op"] = "c11.nm"; R["pp"] = None
+    elif op == "c11.rsd":
+        R["restart"] = "rsd"; R["op"] = "c11.nmd"; R["start"] = None; R["deltas"] = c.dbls()
+    elif op == "c11.rs1":
+        R["restart"] = "rs1"; R["op"] = "c11.nm1"; R["start"] = None; R["delta"] = c.dbl()
+    else:
+        raise ValueError(op)
     finish_parse(R, c)
     return R
 
@@ -578,7 +586,25 @@ def gen_seq(rng, nlong, nshort, R):
         ms = []
         for j in range(n):
             kind = rng.choice(["nm", "nm1", "nmd"]) if (not long_ or j < 3) else "nm"
-            ms.append(member(kind, 2 if rng.random() < 0.6 else 3, ftol))
+            dim = 2 if rng.random() < 0.6 else 3
+            mtxt = member(kind, dim, ftol)
+            ms.append(mtxt)
+            # argument aliasing: restart from the object's own state (the Numerical-Recipes restart idiom), with the same
+            # objective; `rs` passes current_simplex itself, `rs1`/`rsd` its row 0 as starting point
+            if rng.random() < (0.12 if long_ else 0.6):
+                toks_ = mtxt.split()
+                # program + meta are the tail of the member text: find it by re-parsing
+                c = Cur(toks_[1:])
+                Rm = parse_member("c11." + kind, ftol, c)
+                tail = "%s %s" % (toklist(Rm["prog"]), toklist(["%s=%s" % kv for kv in Rm["meta"].items()] + ["fixed=restart"]))
+                rk = rng.choice(["rs", "rs", "rs1", "rsd"])
+                if rk == "rs":
+                    ms.append("rs " + tail)
+                elif rk == "rs1":
+                    ms.append("rs1 %s %s" % (hx(rng.choice([1, -1]) * rng.uniform(0.05, 0.5)), tail))
+                else:
+                    ms.append("rsd %s %s" % (lst([rng.choice([1, -1]) * rng.uniform(0.05, 0.5) for _ in range(dim)]), tail))
+        n = len(ms)
         R.append("c11.nmseq %s %d %s" % (hx(ftol), n, " ".join(ms)))
 
 
@@ -759,6 +785,25 @@ def compare_seq(R, rq, impl, model, ctx):
     for i, (Rm, fr) in enumerate(zip(mem, fresh)):
         mo = models[i] if i < len(models) else "driver-no-answer"
         sub = []
+        if Rm.get("restart"):
+            # the shared-object answer carries a copy of the aliased argument (`IN mpts ndim values`)
+            if seqtag != "ok" or i >= len(seq) or not seq[i].startswith("ok IN ") or tag(fr) == "skip":
+                continue
+            t = seq[i].split()
+            mp, nd = int(t[2]), int(t[3])
+            vals = [fl(v) for v in t[4:4 + mp * nd]]
+            IN = [vals[r * nd:(r + 1) * nd] for r in range(mp)]
+            seq[i] = "ok " + " ".join(t[4 + mp * nd:])
+            if Rm["restart"] == "rs":
+                Rm["pp"] = IN
+            else:
+                Rm["start"] = IN[0]
+            bump(ctx, "seq.restart." + Rm["restart"])
+            # descent / consistency judged on the ALIASED run itself
+            for f in oracle_nd(Rm, seq[i], ctx, rq):
+                f["detail"] = "member %d, %s restart with the object's own simplex as argument: %s" % (i, Rm["restart"], f.get("detail", ""))
+                if f["kind"] == "prop":
+                    sub.append(f)
         if crashed(fr):
             sub.append(fail("prop", "crash/sanitizer/silent exit: " + tag(fr), fr[:100]))
         elif tag(fr) == "ok":
@@ -771,7 +816,8 @@ def compare_seq(R, rq, impl, model, ctx):
         elif tag(fr) == "err" and tag(mo) == "ok":
             sub.append(fail("prop", "iteration-limit exit (diagnostic) on a request where the model converges", ""))
         for f in sub:
-            f["detail"] = "member %d (fresh object): %s" % (i, f.get("detail", ""))
+            if "restart with the object's own simplex" not in f.get("detail", ""):
+                f["detail"] = "member %d (fresh object%s): %s" % (i, ", given a copy of the aliased argument" if Rm.get("restart") else "", f.get("detail", ""))
         out += sub
         # the shared object
         if seqtag != "ok":
@@ -781,8 +827,9 @@ def compare_seq(R, rq, impl, model, ctx):
         if tag(fr) == "ok" and toks(seq[i]) != toks(fr):
             Is, If = parse_impl_nd(seq[i]), parse_impl_nd(fr)
             what = [kk for kk in ("pmin", "fmin", "nfunc", "y", "rows", "tr") if Is[kk] != If[kk] and not (kk == "fmin" and same(Is[kk], If[kk]))]
-            d = "run %d of %d on one object (%d evaluations in earlier runs) differs from the fresh-object run in %s: nfunc %d vs %d, %d vs %d evaluations" % (
-                i + 1, len(mem), total - len(If["tr"]), ",".join(what), Is["nfunc"], If["nfunc"], len(Is["tr"]), len(If["tr"]))
+            d = "run %d of %d on one object (%d evaluations in earlier runs)%s differs from the fresh-object run in %s: nfunc %d vs %d, %d vs %d evaluations" % (
+                i + 1, len(mem), total - len(If["tr"]), " [%s restart: argument aliases the object's own simplex; fresh object given a copy]" % Rm["restart"] if Rm.get("restart") else "",
+                ",".join(what), Is["nfunc"], If["nfunc"], len(Is["tr"]), len(If["tr"]))
             if first_diff is None:
                 first_diff = d
             if "pmin" in what and point_diff is None:
